@@ -8,6 +8,7 @@
 package main
 
 import (
+	"encoding/hex"
 	"encoding/json"
 	"fmt"
 	"math"
@@ -102,11 +103,48 @@ type tdesc struct {
 	repaired bool // a known finding of this type no longer reproduces: compare with the repaired descriptor
 }
 
+// strTok: a Go string is a byte string.  `~` = ""; bytes [A-Za-z0-9_] as they are; anything else `%<hex>`.
 func strTok(s string) string {
 	if s == "" {
 		return "~"
 	}
-	return s
+	plain := s[0] != '%'
+	for i := 0; i < len(s) && plain; i++ {
+		c := s[i]
+		plain = (c >= '0' && c <= '9') || (c >= 'A' && c <= 'Z') || (c >= 'a' && c <= 'z') || c == '_'
+	}
+	if plain {
+		return s
+	}
+	return "%" + hex.EncodeToString([]byte(s))
+}
+
+func tokStr(t string) string {
+	if t == "~" {
+		return ""
+	}
+	if strings.HasPrefix(t, "%") {
+		b, _ := hex.DecodeString(t[1:])
+		return string(b)
+	}
+	return t
+}
+
+// nilV stands for a nil interface value in an op (token `nil`).
+const nilV = math.MinInt64 + 7777
+
+func boxV(v int64) interface{} {
+	if v == nilV {
+		return nil
+	}
+	return V(v)
+}
+
+func valTok(v int64) string {
+	if v == nilV {
+		return "nil"
+	}
+	return strconv.FormatInt(v, 10)
 }
 func boolTok(b bool) string {
 	if b {
@@ -326,7 +364,7 @@ func newIntKeyMap(c ctor) *inst {
 			k := int32(o.k.i)
 			switch o.code {
 			case "P":
-				return objVal(m.Put(k, V(o.v)))
+				return objVal(m.Put(k, boxV(o.v)))
 			case "G":
 				return objVal(m.Get(k))
 			case "CK":
@@ -343,7 +381,7 @@ func newIntKeyMap(c ctor) *inst {
 			case "PA":
 				other := hmap.NewIntKeyMap(3, 0.75)
 				for _, p := range o.pairs {
-					other.Put(int32(p.k.i), V(p.v))
+					other.Put(int32(p.k.i), boxV(p.v))
 				}
 				m.PutAll(other)
 				return "u"
@@ -666,7 +704,7 @@ func (t *tdesc) line0(o op) string {
 	case "ED":
 		return "ES"
 	case "P", "A", "AE":
-		return fmt.Sprintf("%s %s %d", o.code, t.keyTok(o.k), o.v)
+		return fmt.Sprintf("%s %s %s", o.code, t.keyTok(o.k), valTok(o.v))
 	case "U":
 		return fmt.Sprintf("P %s 0", t.keyTok(o.k))
 	case "G", "CK", "R":
@@ -692,7 +730,7 @@ func (t *tdesc) line0(o op) string {
 		}
 		var ps []string
 		for _, p := range o.pairs {
-			ps = append(ps, fmt.Sprintf("%s=%d", t.keyTok(p.k), p.v))
+			ps = append(ps, fmt.Sprintf("%s=%s", t.keyTok(p.k), valTok(p.v)))
 		}
 		return "PA " + strings.Join(ps, ",")
 	case "TO":
@@ -717,7 +755,7 @@ func (t *tdesc) replayLine0(o op) string {
 	case "TO":
 		var ps []string
 		for _, p := range o.pairs {
-			ps = append(ps, fmt.Sprintf("%s=%d", t.keyTok(p.k), p.v))
+			ps = append(ps, fmt.Sprintf("%s=%s", t.keyTok(p.k), valTok(p.v)))
 		}
 		if len(ps) == 0 {
 			return "TO []"
@@ -740,10 +778,7 @@ func parseLine(t *tdesc, l string) (op, bool) {
 	o := op{code: w[0], t: tgt}
 	pk := func(s string) key {
 		if t.kkind == 's' {
-			if s == "~" {
-				return key{}
-			}
-			return key{s: s}
+			return key{s: tokStr(s)}
 		}
 		i, _ := strconv.ParseInt(s, 10, 64)
 		return key{i: i}
@@ -754,7 +789,11 @@ func parseLine(t *tdesc, l string) (op, bool) {
 			return o, false
 		}
 		o.k = pk(w[1])
-		o.v, _ = strconv.ParseInt(w[2], 10, 64)
+		if w[2] == "nil" {
+			o.v = nilV
+		} else {
+			o.v, _ = strconv.ParseInt(w[2], 10, 64)
+		}
 	case "G", "CK", "R", "U", "HK":
 		if len(w) != 2 {
 			return o, false
@@ -779,6 +818,9 @@ func parseLine(t *tdesc, l string) (op, bool) {
 					return o, false
 				}
 				v, _ := strconv.ParseInt(p[i+1:], 10, 64)
+				if p[i+1:] == "nil" {
+					v = nilV
+				}
 				o.pairs = append(o.pairs, pairKV{pk(p[:i]), v})
 			}
 		}
@@ -1047,14 +1089,7 @@ func sortedPairs(t *tdesc, ps []pairS) []pairS {
 	out := append([]pairS(nil), ps...)
 	sort.SliceStable(out, func(i, j int) bool {
 		if t.kkind == 's' {
-			a, b := out[i].k, out[j].k
-			if a == "~" {
-				a = ""
-			}
-			if b == "~" {
-				b = ""
-			}
-			return a < b
+			return tokStr(out[i].k) < tokStr(out[j].k) // bytewise, like the model's byte-list order
 		}
 		a, _ := strconv.ParseInt(out[i].k, 10, 64)
 		b, _ := strconv.ParseInt(out[j].k, 10, 64)
@@ -1274,7 +1309,8 @@ func keyPool(t *tdesc, r *vh.Rng) []key {
 	n := r.PickInt([]int{1, 2, 3, 4, 6, 9, 16, 40, 120})
 	var cand []key
 	if t.kkind == 's' {
-		base := []string{"", "a", "b", "aa", "Aa", "BB", "AaAa", "BBBB", "z", "0", "key", "A_long_key_0123456789"}
+		base := []string{"", "a", "b", "aa", "Aa", "BB", "AaAa", "BBBB", "z", "0", "key", "A_long_key_0123456789",
+			"é", "日本語", "\xff\xfe", "a b", "k,=v", "\x00", "%25", "Aa\x80"}
 		base = append(base, strCollide...)
 		for _, s := range base {
 			cand = append(cand, key{s: s})
@@ -1343,6 +1379,9 @@ func genVal(t *tdesc, r *vh.Rng) int64 {
 	}
 	if r.Chance(10) {
 		return r.Pick64([]int64{0, math.MaxInt64, math.MinInt64})
+	}
+	if r.Chance(6) {
+		return nilV // a stored nil interface value (IntKeyMap)
 	}
 	return r.Range(-50, 50)
 }
@@ -1425,6 +1464,9 @@ func genOps(t *tdesc, r *vh.Rng, avail []string, n int, nInst int) []op {
 				o.v = vals[r.Intn(len(vals))]
 			} else {
 				o.v = genVal(t, r)
+			}
+			if o.v == nilV {
+				o.v = 0
 			}
 		case "SM":
 			o.n = r.PickInt([]int{0, 1, 2, 3, 7, -1})
